@@ -304,6 +304,44 @@ func runC10Enum(r *simkit.Run, c Cfg) {
 			}
 		}
 	}
+	// messages at the encoder's size caps (8192 addresses, 2 MiB extra data,
+	// 2 MiB address, 8192-byte original peer) round-trip too; one field over
+	// a cap is refused by the encoder rather than producing bytes the decoder
+	// rejects
+	if c.Case%8 == 0 {
+		big := func(n int) []byte { return bytes.Repeat([]byte{0x5a}, n) }
+		atCap := []message.Message{
+			{Cid: m.Cid, Addrs: make([][]byte, 8192)},
+			{Cid: m.Cid, ExtraData: big(2 << 20)},
+			{Cid: m.Cid, Addrs: [][]byte{big(2 << 20)}},
+			{Cid: m.Cid, OrigPeer: string(big(8192))},
+		}
+		for i, bm := range atCap {
+			var b bytes.Buffer
+			if err := bm.MarshalCBOR(&b); err != nil {
+				r.Violate("c10.encode", "message at a size cap (#%d) cannot be encoded: %v", i, err)
+				continue
+			}
+			got, err := decodeGuard(r, "a message at a size cap", b.Bytes())
+			if err != nil || !msgEqual(got, bm) {
+				r.Violate("c10.roundtrip", "message at a size cap (#%d) does not round-trip (err=%v)", i, err)
+			}
+		}
+		over := []message.Message{
+			{Cid: m.Cid, Addrs: make([][]byte, 8193)},
+			{Cid: m.Cid, ExtraData: big(2<<20 + 1)},
+			{Cid: m.Cid, OrigPeer: string(big(8193))},
+		}
+		for i, bm := range over {
+			var b bytes.Buffer
+			if err := bm.MarshalCBOR(&b); err == nil {
+				if _, derr := decodeGuard(r, "a message over a size cap", b.Bytes()); derr != nil {
+					r.Violate("c10.encode", "message over a size cap (#%d) is encoded without error into bytes the decoder rejects (%v)", i, derr)
+				}
+			}
+		}
+		r.Probe("size-cap-messages")
+	}
 	r.NoteEnabled(2)
 	r.Probe("nontrivial")
 	r.Logf("~cfg", "message #%d: %d bytes, %d prefixes, %d bit flips of which %d decode", c.Case, len(enc), len(enc), len(enc)*8, n)
@@ -352,7 +390,13 @@ func runC10(r *simkit.Run, c Cfg) {
 		sopts = append(sopts, httpsender.WithExtraData(extra))
 	}
 	sopts = append(sopts, httpsender.WithTimeout(10*time.Second))
-	sender := must(httpsender.New(urls, pub.ID, sopts...))
+	given := urls
+	if tp.Chance(1, 4, "dupURL") {
+		// the same endpoint listed twice: it is still announced to once
+		given = append(append([]*url.URL{}, urls...), must(url.Parse(urls[0].String())))
+		r.Probe("duplicate-announce-url")
+	}
+	sender := must(httpsender.New(given, pub.ID, sopts...))
 	faulty := tp.Chance(1, 2, "faulty")
 	var cancelCur context.CancelFunc
 	type plan struct{ kind string }
@@ -455,13 +499,18 @@ func runC10(r *simkit.Run, c Cfg) {
 			nfailed := 0
 			for k, e := range eps {
 				var q *simkit.ReqRecord
+				nreq := 0
 				for _, x := range net.Requests()[req0:] {
 					if x.Server == e.name {
 						q = x
+						nreq++
 					}
 				}
 				if q == nil {
 					continue
+				}
+				if nreq != 1 {
+					r.Violate("c10.send", "endpoint %s received %d requests for one Send", e.name, nreq)
 				}
 				bad := failed[e.name][q.SrvSeq]
 				got, decoded := e.bySeq[fmt.Sprint(q.SrvSeq)]
